@@ -35,6 +35,7 @@ func runC16(c *Ctx) {
 	purlTypeLookup(c)
 	runC16rest(c)
 	purlFallbackOnlyWithoutHashMatches(c)
+	purlCriterionNeedsPurl(c)
 	// "precisely the nodes satisfying the criterion" and "does not depend on the order of nodes":
 	// the loops of the lookup and matching functions skip an element only for the criterion itself
 	const RL = "loop-totality"
@@ -1154,4 +1155,136 @@ func filterPredicates(c *Ctx, d *declInfo) []*ast.FuncLit {
 		}
 	}
 	return out
+}
+
+// purlCriterionNeedsPurl: "nodes without package URL never match by package URL". In the matcher
+// (and the helpers that belong to it) two package URLs are compared for equality only where one of
+// them is known to be non-empty: otherwise an absent package URL on both sides reads as agreement,
+// and a node is selected because it has no package URL.
+func purlCriterionNeedsPurl(c *Ctx) {
+	const R = "purl-criterion-nonempty"
+	c.rule(R, "in GetMatchingNode and its owned helpers every `p == q` between two values of Node.Purl() is reached only where p or q is known to be non-empty (a `!= \"\"` conjunct, an enclosing condition, or an earlier exit on `== \"\"`)")
+	n := 0
+	for _, d := range c.reachDecls(R, "sbom.(*NodeList).GetMatchingNode") {
+		if d.name != "sbom.(*NodeList).GetMatchingNode" && ownerName(d) != "sbom.(*NodeList).GetMatchingNode" {
+			continue
+		}
+		if d.fd.Body == nil {
+			continue
+		}
+		purlVals := map[types.Object]bool{}
+		isPurlCall := func(e ast.Expr) bool {
+			ce, ok := ast.Unparen(e).(*ast.CallExpr)
+			if !ok {
+				return false
+			}
+			f, _ := typeutil.Callee(d.pkg.TypesInfo, ce).(*types.Func)
+			return f != nil && objName(f) == "sbom.(*Node).Purl"
+		}
+		ast.Inspect(d.fd.Body, func(x ast.Node) bool {
+			if as, ok := x.(*ast.AssignStmt); ok && len(as.Lhs) == len(as.Rhs) {
+				for i, r := range as.Rhs {
+					if isPurlCall(r) {
+						if o := objOf(d.pkg, as.Lhs[i]); o != nil {
+							purlVals[o] = true
+						}
+					}
+				}
+			}
+			return true
+		})
+		isPurl := func(e ast.Expr) bool {
+			if isPurlCall(e) {
+				return true
+			}
+			o := objOf(d.pkg, ast.Unparen(e))
+			return o != nil && purlVals[o]
+		}
+		text := func(e ast.Expr) string { return normText(exprText(c.P.Fset, ast.Unparen(e))) }
+		k := 0
+		ast.Inspect(d.fd.Body, func(x ast.Node) bool {
+			be, ok := x.(*ast.BinaryExpr)
+			if !ok || be.Op != token.EQL || !isPurl(be.X) || !isPurl(be.Y) {
+				return true
+			}
+			k++
+			n++
+			subjects := map[string]bool{text(be.X): true, text(be.Y): true}
+			known := false
+			nonEmptyFact := func(cond ast.Expr, negated bool) {
+				// cond holds (negated=false) or fails (negated=true) where the comparison runs
+				if !negated {
+					for _, cj := range conjuncts(cond) {
+						if cj == ast.Expr(be) {
+							continue
+						}
+						if s, empty, okE := emptinessTest(c, cj); okE && !empty && subjects[s] {
+							known = true
+						}
+					}
+					return
+				}
+				djs := disjuncts(cond)
+				if len(djs) == 0 {
+					djs = []ast.Expr{cond}
+				}
+				for _, dj := range djs {
+					if s, empty, okE := emptinessTest(c, dj); okE && empty && subjects[s] {
+						known = true
+					}
+				}
+			}
+			chain := enclosing(d.fd.Body, be)
+			for i, y := range chain {
+				switch s := y.(type) {
+				case *ast.BinaryExpr:
+					if s.Op == token.LAND && i+1 < len(chain) && !containsNode(s.X, be) {
+						// the right operand of && runs only where the left holds
+						nonEmptyFact(s.X, false)
+					} else if s.Op == token.LAND {
+						// conjuncts to the right do not protect the evaluation, but the positive
+						// side of the whole conjunction is what selects: they count for a condition
+						nonEmptyFact(s.Y, false)
+					}
+				case *ast.IfStmt:
+					if i+1 < len(chain) && chain[i+1] == ast.Node(s.Body) {
+						nonEmptyFact(s.Cond, false)
+					}
+					if i+1 < len(chain) && s.Else != nil && chain[i+1] == ast.Node(s.Else) {
+						nonEmptyFact(s.Cond, true)
+					}
+				case *ast.BlockStmt, *ast.CaseClause:
+					var list []ast.Stmt
+					if b, isB := s.(*ast.BlockStmt); isB {
+						list = b.List
+					} else {
+						list = s.(*ast.CaseClause).Body
+					}
+					for _, st := range list {
+						if i+1 < len(chain) && (st == chain[i+1] || st.Pos() > be.Pos()) {
+							break
+						}
+						if ifs, isIf := st.(*ast.IfStmt); isIf && ifs.Else == nil && terminates(ifs.Body) {
+							nonEmptyFact(ifs.Cond, true)
+						}
+					}
+				}
+			}
+			c.check(known, R, fmt.Sprintf("%s#compare@%d", d.name, k), c.P.Pos(be.Pos()), "package URLs are compared only where one is known to be non-empty",
+				fmt.Sprintf("%s compares `%s` where neither side is known to be non-empty: a probe without package URL then agrees with every candidate that has none (files never have one), and a node is selected by the absence of a package URL instead of the ambiguity being reported", d.name, exprText(c.P.Fset, be)))
+			return true
+		})
+	}
+	c.floor(R, 1, "the tie-break comparison in GetMatchingNode")
+}
+
+func containsNode(root ast.Node, target ast.Node) bool {
+	found := false
+	ast.Inspect(root, func(x ast.Node) bool {
+		if x == target {
+			found = true
+		}
+		return !found
+	})
+	return found
 }
